@@ -1,6 +1,6 @@
 (** C10 — the whole schema declaration: the printer succeeds on every well-formed schema, and the
     four namespaces are those of [Proofs.NS]. *)
-From V Require Import Base.Util Gql.Ast Writer.Wop Ts.TsType Ts.TsDen C10.Model C10.Spec C10.DenLemmas C10.Proofs.
+From V Require Import Base.Util Gql.Ast Writer.Wop Ts.TsType Ts.TsDen C10.Model C10.Spec C10.DenLemmas C10.Decide C10.Proofs C10.Proofs3.
 
 Lemma mapM_ok_intro {A B} (f : A -> res B) l :
   (forall x, In x l -> exists y, f x = Ok y) -> exists ys, mapM f l = Ok ys.
@@ -110,4 +110,13 @@ Theorem alias_present o doc nss t T td :
   (applicable doc t T = true <-> exists body, alias_of (namespace_of nss t) T = Some body).
 Proof.
   intros Hwf Hd. eapply alias_present_iff; [exact Hwf|apply namespace_of_decls; exact Hd].
+Qed.
+
+Theorem alias_exact_equiv o doc nss t T body v :
+  wf_schema o doc = true -> schema_decls o doc = Ok nss ->
+  applicable doc t T = true -> alias_of (namespace_of nss t) T = Some body ->
+  (In_type (ns_env (namespace_of nss t)) body v <-> Ref o doc t T v = true)
+  /\ (NotIn_type (ns_env (namespace_of nss t)) body v <-> Ref o doc t T v = false).
+Proof.
+  intros Hwf Hd. eapply alias_exact_iff; [exact Hwf|apply namespace_of_decls; exact Hd|reflexivity].
 Qed.
